@@ -316,3 +316,23 @@ CHECKS["C16"] = {
         {"variant": "tsan", "engine": "stress", "procs": 2, "rounds_quick": 600, "rounds_thorough": 10000},
     ],
 }
+
+CHECKS["C18"] = {
+    "src": "C18.cpp",
+    "level": "exploration",
+    "rule": "histories on DelayedObjects<std::string> over 2 integer and 2 string keys (each requested at most once, in a setup prefix or by a "
+            "thread): getFuture, setDelayedValue (copy and move, unique values), fulfillAllPromises, finishedWithValue, isRecognized, isCompleted, "
+            "consumers polling futures; the container is destroyed with futures outstanding and every future is then read. Every history "
+            "(including the final future values) is checked by a WGL search against a per-key life-cycle model {unknown, pending, completed(v), "
+            "finished}; any exception from the API or a future, a future not ready after destruction, or a corrupt value is a violation. seq mode: "
+            "single-threaded sequences of 4-16 calls. Non-trivial: calls of different threads overlapped (seq: >= 5 calls); distinct = (calls, "
+            "results, schedule signature).",
+    "assumptions": ["each key is requested once (as the property states)", "linearizability is judged with the acq_rel logical clock and not in TSan builds"],
+    "runs": [
+        {"variant": "asan", "engine": "off", "mode": "seq", "procs": 2, "rounds_quick": 6000, "rounds_thorough": 80000},
+        {"variant": "plain", "engine": "serial", "procs": 6, "rounds_quick": 6000, "rounds_thorough": 120000},
+        {"variant": "asan", "engine": "stress", "procs": 3, "rounds_quick": 2000, "rounds_thorough": 40000},
+        {"variant": "asan", "engine": "serial", "procs": 2, "rounds_quick": 2000, "rounds_thorough": 40000},
+        {"variant": "tsan", "engine": "stress", "procs": 2, "rounds_quick": 1000, "rounds_thorough": 20000},
+    ],
+}
